@@ -1,6 +1,8 @@
 import Holpy.Common.Sexp
 import Holpy.C07.Model
 import Holpy.C07.Text
+import Holpy.C07.TypeText
+import Holpy.C07.SeqText
 import Holpy.C07.Gen
 /-
 Line protocol of the C07 model (one s-expression in, one out); strings are percent-encoded atoms
@@ -141,6 +143,19 @@ def handle (line : String) : String :=
     match u.toBool?, tyOf t with
     | some uni, some ty => toString (Sexp.list ((printTy Gen.tySyms uni ty).map tokTo))
     | _, _ => "bad-op"
+  | some (.list [.atom "printtytext", u, t]) =>
+    match u.toBool?, tyOf t with
+    | some uni, some ty => enc (ofCodes (printTyText Gen.tySyms Gen.symbolsC uni ty))
+    | _, _ => "bad-op"
+  | some (.list [.atom "tynamesok", t]) =>
+    match tyOf t with
+    | some ty => toString (Sexp.ofBool (ty.namesOKb Gen.symbolsC))
+    | none => "bad-op"
+  | some (.list [.atom "printthmtext", u, .list hs, c]) =>
+    match u.toBool?, hs.mapM skelOf, skelOf c with
+    | some uni, some hyps, some concl =>
+      enc (ofCodes (printThmText Gen.table Gen.ladder Gen.symbolsC Gen.seqSyms uni hyps concl))
+    | _, _, _ => "bad-op"
   | some (.list [.atom "parsetytext", .atom s]) =>
     match lex Gen.symbolsC (toCodes (dec s)) with
     | some toks =>
